@@ -124,6 +124,7 @@ func checkC20(p *Prog, r *Report) {
 	/* -print-ctrl-i reports a source it cannot convert: the generator hands
 	back the conversion's own error, and never an empty success in its
 	place (C17's rule, under this property's start-up clause). */
+	checkSourcesConverted(p, r.Rule("missing-source-reported", "a Ctrl+I source which does not exist fails the conversion (C17's rule): the sources named are converted as named, not expanded as patterns first"))
 	checkCtrlIGenerator(p, r, r.Rule("ctrl-i-generator", "main's Ctrl+I generator returns Converter.From's payload and error and nothing else"))
 	/* A damaged certificate cache is a start-up failure to be reported, not
 	a missing cache to be regenerated over (C08's rule, under this
@@ -1024,6 +1025,51 @@ func checkC20Restore(p *Prog, r *Report, ru *Rule) {
 				}
 			}
 		})
+	}
+	/* Modes switched on through the terminal library while setting up (a
+	Set…Mode(true) which writes an escape sequence: bracketed paste) are
+	terminal state as much as termios is: the cleanup switches them off. */
+	{
+		var cleanFn *ssa.Function
+		if oc, isCall := cleanupLocal.(*ssa.Call); isCall && 0 != len(oc.Common().Args) {
+			cleanFn, _ = closureOf(oc.Common().Args[0])
+		} else {
+			cleanFn, _ = closureOf(cleanupLocal)
+		}
+		modeCall := func(i ssa.Instruction) (string, bool, bool) {
+			c := callCommon(i)
+			if nil == c || nil == c.StaticCallee() || "Terminal" != recvTypeName(c.StaticCallee()) || !strings.HasPrefix(c.StaticCallee().Name(), "Set") || !strings.HasSuffix(c.StaticCallee().Name(), "Mode") || 2 != len(c.Args) {
+				return "", false, false
+			}
+			b, isC := constBool(c.Args[1])
+			return c.StaticCallee().Name(), b, isC
+		}
+		for _, f := range withAnons(onew) {
+			if nil != cleanFn && (f == cleanFn || f.Parent() == cleanFn) {
+				continue
+			}
+			eachInstr(f, func(i ssa.Instruction) {
+				name, on, isC := modeCall(i)
+				if "" == name || !isC || !on {
+					return
+				}
+				undone := false
+				if nil != cleanFn {
+					for _, cf := range withAnons(cleanFn) {
+						eachInstr(cf, func(j ssa.Instruction) {
+							if n2, on2, c2 := modeCall(j); n2 == name && c2 && !on2 {
+								undone = true
+							}
+						})
+					}
+				}
+				if undone {
+					ru.OK(fnName(onew)+":"+name, posOf(i), "switched off again by the cleanup")
+				} else {
+					ru.Bad(fnName(onew)+":"+name, posOf(i), "opshell.New switches a terminal mode on with %s(true) and the cleanup it returns does not switch it off: an exit before (or without) whoever else undoes it leaves the terminal in that mode", name)
+				}
+			})
+		}
 	}
 	/* What is restored is the mode the terminal was found in: the place the
 	cleanup reads the saved state from is written by New alone. */
